@@ -79,6 +79,12 @@ def run(tier, seed):
             firsts = [float(t[0][1]["zeta"]) if len(t[0]) > 1 else None for t in r1] if cls == "fssh" else []
             if cls == "fssh" and any(f is not None and f != zl_before[0] for f in firsts):
                 bad.append(dict(failed="every batch member consumes the user-supplied thresholds in the order given before any generator number (first thresholds used: %r, supplied %r)" % (firsts, zl_before[0]), case=info))
+        if shared_zl is None and cls in ("fssh", "cumulative", "afssh") and len(r1) >= 2:
+            # members of one batch draw from distinct streams: their threshold sequences differ
+            zs = [tuple(float(s_["zeta"]) for s_ in t[0][1:6] if "zeta" in s_) for t in r1]
+            res.count("batch-members-distinct-streams")
+            if any(zs[i] and zs[i] == zs[j] for i in range(len(zs)) for j in range(i)):
+                bad.append(dict(failed="the trajectories of a batch draw from distinct random streams (two members of one batch used identical threshold sequences %r)" % (zs[0][:3],), case=info))
         res.count("repeat/" + cls); res.case(("rep", cls, mname, sd, ns), True, info)
         if cls != "es":
             r3 = batch(ns + rng.randint(1, 3))
